@@ -4,6 +4,7 @@ import (
 	"fmt"
 	"sort"
 	"strings"
+	"time"
 
 	"github.com/shopspring/decimal"
 )
@@ -158,6 +159,8 @@ type JGenOpts struct {
 	ChainPrices        bool // declare some prices through a third commodity
 	PricesFirstDayOnly bool // all price declarations on the first day (later days have bookings only)
 	DupPrices          bool // sometimes declare the same pair twice on one day with different prices (file order matters; excluded by C05 only)
+	ManyPricesPerDay   bool // a day with 13-30 further price declarations, among them redeclared pairs (unstable sorts reorder them only above 12 elements; file order decides which price wins)
+	BoundaryDates      bool // the days are drawn from the days around a turn of the year and the end of February (leap years included)
 	LongPrices         bool // some declared prices carry 9-12 decimals (more than the 8 the price arithmetic keeps)
 	CaseVariants       bool // commodities that differ only in letter case (distinct commodities; comparators must not tie on them)
 }
@@ -174,7 +177,8 @@ type jgState struct {
 func GenJournal(r *RNG, o JGenOpts) (*Journal, []string) {
 	var tags []string
 	tag := func(t string) { tags = append(tags, t) }
-	segs := []string{"Bank", "Cash", "Broker", "Main", "Sub", "X", "Y", "Z9", "Salary", "Rent", "Food", "Car", "A", "B"}
+	// (segments that contain or are account type words: a mapping applied to whole names instead of the first segment shows on them, seed C02-d)
+	segs := []string{"Bank", "Cash", "Broker", "Main", "Sub", "X", "Y", "Z9", "Salary", "Rent", "Food", "Car", "A", "B", "IncomeTax", "FixedAssets", "Expenses", "Liabilities"}
 	if o.Unicode && r.Chance(1, 3) {
 		segs = append(segs, "Überweisung", "Épargne", "日本", "Żółć")
 		tag("unicode")
@@ -229,6 +233,23 @@ func GenJournal(r *RNG, o JGenOpts) (*Journal, []string) {
 		ndays = o.SpanDays + 1
 	}
 	daySet := map[int]bool{}
+	if o.BoundaryDates {
+		// 29 Dec .. 3 Jan and 27 Feb .. 2 Mar around a turn of the year, leap years included (seeded change C05-d keyed the
+		// journal's days by Year()*365 + YearDay(): 31 December of a leap year and the following 1 January fell together)
+		y := 2015 + r.Intn(11)
+		var cand []int
+		for off := -3; off <= 2; off++ {
+			cand = append(cand, dayNum(time.Date(y+1, 1, 1, 0, 0, 0, 0, time.UTC))+off)
+			cand = append(cand, dayNum(time.Date(y+1, 3, 1, 0, 0, 0, 0, time.UTC))+off)
+		}
+		if ndays > len(cand) {
+			ndays = len(cand)
+		}
+		for len(daySet) < ndays {
+			daySet[Pick(r, cand)] = true
+		}
+		tag("boundary-dates")
+	}
 	for len(daySet) < ndays {
 		daySet[o.BaseDay+r.Intn(o.SpanDays+1)] = true
 	}
@@ -314,6 +335,25 @@ func GenJournal(r *RNG, o JGenOpts) (*Journal, []string) {
 					}
 				}
 			}
+		}
+		if o.Prices && o.ManyPricesPerDay && r.Chance(1, 3) {
+			// a quote file pasted into the journal: many declarations on one day, some pairs declared twice or more
+			n := r.Range(13, 30)
+			var extra []string
+			for _, c := range coms {
+				if c != o.Valuation {
+					extra = append(extra, c)
+				}
+			}
+			for k := 0; k < 4; k++ {
+				extra = append(extra, fmt.Sprintf("Q%d", k))
+			}
+			for k := 0; k < n; k++ {
+				c := Pick(r, extra)
+				p := fmt.Sprintf("%d.%02d", r.Range(0, 300), r.Range(1, 99))
+				j.Dirs = append(j.Dirs, JDir{Kind: 'p', Date: day, Com: c, Price: p, Target: o.Valuation})
+			}
+			tag("many-prices-one-day")
 		}
 		// opens
 		for _, a := range accounts {
